@@ -417,19 +417,83 @@ def biv_layouts(ctx, which):
                                              f'why = biv_layout_replay({fam!r}, {th!r}, {meth!r}, {layout!r})\nprint(why)\nassert why is None\n')})
 
 
+def biv_inplace_replay(fam, th, meth):
+    """replay entry point.  ONE ndarray object is handed to the same copula object twice, refilled IN PLACE in between (the way a
+    caller loops over a preallocated buffer): the second answer must be the answer for the buffer's current contents (that of a fresh
+    object on a fresh copy).  A memo keyed on the identity of the argument breaks exactly this."""
+    rs = np.random.RandomState(31)
+    X1 = rs.uniform(0.02, 0.98, (40, 2))
+    X2 = rs.uniform(0.02, 0.98, (40, 2))
+    o = _biv_new(fam, th)
+    buf = np.empty((40, 2))
+    with np.errstate(all='ignore'):
+        if meth == 'percent_point':
+            y, v = np.empty(40), np.empty(40)
+            y[:], v[:] = X1[:, 0], X1[:, 1]
+            a1 = np.asarray(o.percent_point(y, v), dtype=float).copy()
+            y[:], v[:] = X2[:, 0], X2[:, 1]
+            a2 = np.asarray(o.percent_point(y, v), dtype=float).copy()
+            f = _biv_new(fam, th)
+            b1 = np.asarray(f.percent_point(X1[:, 0].copy(), X1[:, 1].copy()), dtype=float)
+            b2 = np.asarray(_biv_new(fam, th).percent_point(X2[:, 0].copy(), X2[:, 1].copy()), dtype=float)
+        else:
+            buf[:] = X1
+            a1 = np.asarray(getattr(o, meth)(buf), dtype=float).copy()
+            buf[:, 0] = X2[:, 0]
+            buf[:, 1] = X2[:, 1]
+            a2 = np.asarray(getattr(o, meth)(buf), dtype=float).copy()
+            b1 = np.asarray(getattr(_biv_new(fam, th), meth)(X1.copy()), dtype=float)
+            b2 = np.asarray(getattr(_biv_new(fam, th), meth)(X2.copy()), dtype=float)
+    for a, b, which in ((a1, b1, 'first'), (a2, b2, 'second (buffer refilled in place)')):
+        if a.shape != b.shape or not np.allclose(a, b, rtol=1e-9, atol=1e-12, equal_nan=True):
+            k = int(np.nanargmax(np.abs(a - b))) if a.shape == b.shape else 0
+            X = X1 if which == 'first' else X2
+            return (f'{meth} on the {which} call returns {a.ravel()[k]!r} for row {X[k].tolist()}; a fresh object on a fresh copy of the same '
+                    f'values returns {b.ravel()[k]!r}')
+    return None
+
+
+def biv_inplace(ctx, which):
+    for fam, ths in (('clayton', [2.0]), ('frank', [-6.0, 4.0]), ('gumbel', [1.0, 2.5])):
+        for th in ths:
+            for meth in _BIV_METHODS[which]:
+                if meth == 'sample':
+                    continue
+                ctx.case(('inplace', fam, th, meth), {'family': fam, 'theta': th, 'method': meth, 'history': 'query(buf); refill buf in place; query(buf)'})
+                try:
+                    why = biv_inplace_replay(fam, th, meth)
+                except Exception as ex:
+                    why = f'raised {type(ex).__name__}: {str(ex)[:120]}'
+                ctx.obligation(f'oracle:inplace-refill:{fam}:{th}:{meth}', why is None, 'correspondence', why or '')
+                if why:
+                    ctx.violation(f'search:inplace-refill:{meth}:{fam}', f'{fam} theta={th}: {why}',
+                                  {'family': fam, 'theta': th, 'method': meth,
+                                   'repro': ('from vf.extra_oracles import biv_inplace_replay\n'
+                                             f'why = biv_inplace_replay({fam!r}, {th!r}, {meth!r})\nprint(why)\nassert why is None\n')})
+
+
 def biv_extra(ctx, which):
     biv_history(ctx, which)
+    biv_inplace(ctx, which)
     if which in ('C06', 'C07'):
         biv_layouts(ctx, which)
     if which == 'C09':
         biv_sample_rosenblatt(ctx)
 
 
-def biv_sample_rosenblatt_replay(fam, th):
+def biv_sample_rosenblatt_replay(fam, th, variant='mixed'):
     """sample(n) with the two uniform draws replaced by chosen vectors (small v, extreme c included): every row must be
     (u, v) with partial_derivative(u, v) = c, the conditional-inverse construction (checked with a FRESH object's conditional CDF)."""
     v = np.array([0.001, 0.01, 0.03, 0.05, 0.1, 0.12, 0.2, 0.35, 0.5, 0.65, 0.8, 0.9, 0.97, 0.99, 0.3, 0.7])
     c = np.array([0.5, 0.9, 0.2, 0.05, 0.7, 0.35, 0.97, 0.02, 0.6, 0.4, 0.15, 0.85, 0.5, 0.25, 0.999, 0.001])
+    if variant == 'small-v':         # EVERY conditioning value small (what sample(1) or a small n produces with probability 0.1^n)
+        v = np.array([0.001, 0.004, 0.01, 0.02, 0.03, 0.05, 0.07, 0.09])
+        c = np.array([0.5, 0.9, 0.2, 0.05, 0.7, 0.35, 0.97, 0.6])
+    elif variant == 'single':        # sample(1)
+        v, c = np.array([0.04]), np.array([0.3])
+    elif variant == 'large-v':
+        v = np.array([0.999, 0.996, 0.99, 0.98, 0.97, 0.95, 0.93, 0.91])
+        c = np.array([0.5, 0.9, 0.2, 0.05, 0.7, 0.35, 0.97, 0.6])
     draws = [v.copy(), c.copy()]
     o = _biv_new(fam, th)
     orig = np.random.uniform
@@ -463,17 +527,18 @@ def biv_sample_rosenblatt_replay(fam, th):
 def biv_sample_rosenblatt(ctx):
     for fam, ths in (('clayton', [0.5, 2.0, 8.0]), ('frank', [-12.0, -2.0, 3.0, 18.0]), ('gumbel', [1.0, 1.5, 3.0])):
         for th in ths:
-            ctx.case(('sample-rosenblatt', fam, th), {'family': fam, 'theta': th, 'draws': 'chosen v in [0.001, 0.99], c in [0.001, 0.999]'})
+          for variant in ('mixed', 'small-v', 'single', 'large-v'):
+            ctx.case(('sample-rosenblatt', fam, th, variant), {'family': fam, 'theta': th, 'draws': f'chosen ({variant}): v in [0.001, 0.999], c in [0.001, 0.999]'})
             try:
-                why = biv_sample_rosenblatt_replay(fam, th)
+                why = biv_sample_rosenblatt_replay(fam, th, variant)
             except Exception as ex:
                 why = f'oracle raised {type(ex).__name__}: {str(ex)[:120]}'
-            ctx.obligation(f'oracle:sample-rosenblatt:{fam}:{th}', why is None, 'correspondence', why or '')
+            ctx.obligation(f'oracle:sample-rosenblatt:{fam}:{th}:{variant}', why is None, 'correspondence', why or '')
             if why:
-                ctx.violation(f'search:sample-not-conditional-inverse:{fam}', f'{fam} theta={th}: {why}',
-                              {'family': fam, 'theta': th,
+                ctx.violation(f'search:sample-not-conditional-inverse:{fam}', f'{fam} theta={th} ({variant} draws): {why}',
+                              {'family': fam, 'theta': th, 'variant': variant,
                                'repro': ('from vf.extra_oracles import biv_sample_rosenblatt_replay\n'
-                                         f'why = biv_sample_rosenblatt_replay({fam!r}, {th!r})\nprint(why)\nassert why is None\n')})
+                                         f'why = biv_sample_rosenblatt_replay({fam!r}, {th!r}, {variant!r})\nprint(why)\nassert why is None\n')})
 
 
 # ======================================================================================================================
@@ -704,6 +769,26 @@ def _vine_tables():
     return A, B, C
 
 
+def _vine_same_margin_tables():
+    """two tables with IDENTICAL shape, labels and column multisets (dyadic values k/128, so sums/means/min/max/sorted values
+    agree bit for bit) but different dependence: any fingerprint of the margins cannot tell them apart"""
+    import pandas as pd
+    A, _, _ = _vine_tables()
+    n = len(A)
+    R = pd.DataFrame({c: (np.argsort(np.argsort(A[c].to_numpy())) + 1) / 128.0 for c in A.columns})
+    rs = np.random.RandomState(77)
+    base = np.sort(R['a'].to_numpy())
+    noise = lambda s: np.argsort(np.argsort(np.arange(n) + s * rs.normal(size=n)))      # noisy monotone rank permutation
+    P = pd.DataFrame({'a': base[rs.permutation(n)]})
+    ra = np.argsort(np.argsort(P['a'].to_numpy()))
+    P['b'] = np.sort(R['b'].to_numpy())[::-1][np.argsort(np.argsort(ra + 6 * rs.normal(size=n)))]      # strongly NEGATIVE with a
+    P['c'] = np.sort(R['c'].to_numpy())[rs.permutation(n)]                                              # independent
+    rc = np.argsort(np.argsort(P['c'].to_numpy()))
+    P['d'] = np.sort(R['d'].to_numpy())[np.argsort(np.argsort(rc + 4 * rs.normal(size=n)))]            # strongly positive with c
+    assert all(sorted(P[c]) == sorted(R[c]) and float(P[c].sum()) == float(R[c].sum()) for c in R.columns)
+    return R, P
+
+
 def _vine_struct(v):
     out = []
     for t in v.trees:
@@ -716,6 +801,9 @@ def vine_history_replay(vtype, second, aspect):
     from copulas.multivariate import VineCopula
     A, B, C = _vine_tables()
     X2, t2 = (B, 3) if second == 'B' else (C, 1)
+    if second == 'P':
+        A, X2 = _vine_same_margin_tables()
+        t2 = 3
     with np.errstate(all='ignore'):
         v = VineCopula(vtype, random_state=5)
         v.fit(A, truncated=2)
@@ -763,9 +851,9 @@ def vine_history_replay(vtype, second, aspect):
 
 def vine_history(ctx, aspects):
     for vtype in ('center', 'direct', 'regular'):
-        for second in ('B', 'C'):
+        for second in ('B', 'C', 'P'):
             for aspect in aspects:
-                ctx.case(('vine-history', vtype, second, aspect), {'vine': vtype, 'history': f'fit(A,t=2); sample; likelihood; fit({second})', 'aspect': aspect})
+                ctx.case(('vine-history', vtype, second, aspect), {'vine': vtype, 'history': f'fit(A,t=2); sample; likelihood; fit({second})' + (' [P: same margins as A, other dependence]' if second == 'P' else ''), 'aspect': aspect})
                 try:
                     why = vine_history_replay(vtype, second, aspect)
                 except Exception as ex:
